@@ -1217,6 +1217,15 @@ impl endpoint::Session for Session {
             self.remote_outgoing_window = self.remote_outgoing_window.saturating_add(count);
         }
 
+        // A delivery the receiving link settles itself needs no routing of the sender's
+        // dispositions any more
+        if disposition.settled && matches!(disposition.role, Role::Receiver) {
+            let last = disposition.last.unwrap_or(disposition.first);
+            for delivery_id in self.known_delivery_ids(&Role::Sender, disposition.first, last) {
+                self.delivery_tag_by_id.remove(&(Role::Sender, delivery_id));
+            }
+        }
+
         let body = SessionFrameBody::Disposition(disposition);
         let frame = SessionFrame::new(self.outgoing_channel, body);
         Ok(frame)
